@@ -54,7 +54,7 @@ def Err(v):
 
 
 # variant names of foreign enums, learned from the aggregates seen while evaluating (MIR names them)
-VARIANT_NAMES = {}
+VARIANT_NAMES = {("std::task::Poll", 0): "Ready", ("std::task::Poll", 1): "Pending", ("std::cmp::Ordering", 0): "Less", ("std::cmp::Ordering", 1): "Equal", ("std::cmp::Ordering", 2): "Greater"}
 
 
 def is_int(v):
@@ -103,6 +103,7 @@ class Interp:
     def __init__(self, facts, oracle=None, max_steps=20000, max_depth=5, inline=(), bind=None):
         self.f = facts
         self.inline = set(inline)
+        self._polling = False
         # trait method path -> the body of its (single) implementation, for calls on a generic Self
         self.bind = dict(bind or {})
         self.oracle = oracle or (lambda *a: None)
@@ -272,8 +273,9 @@ class Interp:
         body = self.f.bodies.get(path)
         if body is None:
             raise Unsupported("no body for %s" % path)
-        if body.rec.get("is_async") or body.rec.get("closure_kind") in ("coroutine", "coroutine_closure"):
-            raise Unsupported("async body %s" % path)
+        if body.rec.get("closure_kind") == "coroutine" and not self._polling:
+            raise Unsupported("coroutine body %s entered other than by polling its future" % path)
+        self._polling = False
         self.nframe += 1
         fid = self.nframe
         fr = {}
@@ -374,6 +376,11 @@ class Interp:
         if k == "discr":
             v = self.deref_val(self.read_loc(self.loc_of(fid, r[1])))
             if v is not None and v[0] == "adt":
+                if v[1] == "std::cmp::Ordering":
+                    return Int({0: 255, 1: 0, 2: 1}[v[2]])   # i8 discriminants -1/0/1 as MIR's switch prints them
+                la = self.f.adts.get(v[1])
+                if la and v[2] < len(la["variants"]) and la["variants"][v[2]].get("discr") is not None:
+                    return Int(la["variants"][v[2]]["discr"])   # explicit discriminants (e.g. CapabilityKind)
                 return Int(v[2])
             if v is not None and v[0] == "tok":
                 ans = self.oracle("discr", v[1], None, s["sp"])
@@ -506,6 +513,28 @@ class Interp:
             return ans
         a0 = args[0] if args else None
         d0 = self.deref_val(a0) if a0 is not None else None
+        # --- `.await` plumbing: a future is driven to completion at its first poll (no interleaving is modelled);
+        # a future that is not a crate-local coroutine is an opaque token whose output the oracle names
+        if name == "into_future" and len(args) == 1:
+            return a0
+        if name == "new_unchecked" and len(args) == 1 and "pin::Pin" in path + full:
+            return a0
+        if name == "get_context" and len(args) == 1:
+            return Tok("task-context")
+        if name == "poll" and len(args) == 2 and "Future" in path + full:
+            fut = d0
+            if fut is not None and fut[0] == "closure" and fut[1] in self.f.bodies and self.f.bodies[fut[1]].rec.get("closure_kind") == "coroutine":
+                self._polling = True
+                out = self.call_body(fut[1], [fut, args[1]], depth + 1)
+                if out is not None and out[0] == "diverge":
+                    return DIVERGE
+                return Adt("std::task::Poll", 0, {0: out})
+            nm = self.tokname(fut) if fut is not None else "?"
+            ans = self.oracle("await", nm, (t, args, self), site)
+            self.events.append(("await", nm, [], site))
+            if ans is None:
+                ans = Tok("await(%s)" % nm) if "?" not in nm else TOP
+            return Adt("std::task::Poll", 0, {0: ans})
         # --- Try / FromResidual
         if name == "branch" and "ops::Try" in path + full:
             if d0 is not None and d0[0] == "adt" and d0[1] in (RESULT, OPTION):
@@ -580,6 +609,15 @@ class Interp:
             if o is None:
                 return Tok("cmp(%s,%s)" % (self.tokname(args[0]), self.tokname(args[1])))
             return Adt("std::cmp::Ordering", {-1: 0, 0: 1, 1: 2}[o])
+        if name in ("then", "then_with") and len(args) == 2 and d0 is not None and d0[0] == "adt" and d0[1] == "std::cmp::Ordering":
+            if d0[2] != 1:
+                return d0
+            return self.apply(args[1], [], depth) if name == "then_with" else args[1]
+        if name in ("reverse",) and len(args) == 1 and d0 is not None and d0[0] == "adt" and d0[1] == "std::cmp::Ordering":
+            return Adt("std::cmp::Ordering", 2 - d0[2])
+        if name in ("is_lt", "is_le", "is_gt", "is_ge", "is_eq", "is_ne") and len(args) == 1 and d0 is not None and d0[0] == "adt" and d0[1] == "std::cmp::Ordering":
+            o = d0[2] - 1
+            return Int({"is_lt": o < 0, "is_le": o <= 0, "is_gt": o > 0, "is_ge": o >= 0, "is_eq": o == 0, "is_ne": o != 0}[name])
         if name in ("max", "min") and len(args) == 2 and "cmp::Ord" in path + full:
             o = self.compare(args[0], args[1], site)
             if o is None:
@@ -656,6 +694,26 @@ class Interp:
         if all("?" not in n for n in names):
             return Tok("%s(%s)" % (name, ",".join(names)))
         return TOP
+
+    def apply(self, fv, argv, depth=1):
+        """call a closure / fn-item value with the given arguments (for oracles that model a
+        higher-order callee by running the callback it was given)"""
+        cl = self.deref_val(fv)
+        if cl is not None and cl[0] == "closure" and cl[1] in self.f.bodies:
+            cb = self.f.bodies[cl[1]]
+            ty1 = cb.locals[1]["ty"] if len(cb.locals) > 1 else ""
+            selfv = cl
+            if ty1.startswith("&"):
+                if fv is not None and fv[0] == "ref":
+                    selfv = fv
+                else:
+                    nm = "closure#%d" % (len(self.heap) + 1)
+                    self.heap[nm] = cl
+                    selfv = ("ref", ("H", nm, ()))
+            return self.call_body(cl[1], [selfv] + list(argv), depth + 1)
+        if cl is not None and cl[0] == "fn" and cl[1] in self.f.bodies:
+            return self.call_body(cl[1], list(argv), depth + 1)
+        raise Unsupported("callback is not a known closure")
 
     def option_result(self, name, d0, a0, args, t, fid, depth, site):
         f = t["f"]
@@ -803,3 +861,39 @@ def run(facts, path, args, heap=None, oracle=None, inline=(), bind=None):
 
 def href(name):
     return ("ref", ("H", name, ()))
+
+
+def run_async(facts, path, args, heap=None, oracle=None, inline=(), bind=None):
+    """evaluate an async fn / async closure: build its future by evaluating `path`, then drive that
+    future to completion (every awaited crate-local future is run in place; foreign futures are
+    answered by the oracle as kind "await"). Returns (output, heap, events)."""
+    it = Interp(facts, oracle, inline=inline, bind=bind)
+    it.heap = dict(heap or {})
+    fut = it.call_body(path, args, 0)
+    fut = it.deref_val(fut)
+    if fut is None or fut[0] != "closure" or fut[1] not in facts.bodies or facts.bodies[fut[1]].rec.get("closure_kind") != "coroutine":
+        raise Unsupported("%s did not produce a crate-local future" % path)
+    it._polling = True
+    out = it.call_body(fut[1], [fut, Tok("task-context")], 1)
+    return out, it.heap, it.events
+
+
+def default_args(facts, path, heap, names=None):
+    """opaque arguments for body `path` named after its parameters; a closure environment becomes a
+    closure value whose captures are tokens named after the captured variables"""
+    b = facts.bodies[path]
+    args = []
+    for i in range(1, b.rec["argc"] + 1):
+        ty = b.locals[i]["ty"]
+        nm = (names or {}).get(i) or b.local_name(i) or "arg%d" % i
+        if i == 1 and b.kind == "closure":
+            caps = [Tok(u if isinstance(u, str) else (u.get("name") or "cap%d" % j)) for j, u in enumerate(b.upvars or [])]
+            env = ("closure", path, caps)
+            if ty.startswith("&"):
+                heap["env"] = env
+                args.append(href("env"))
+            else:
+                args.append(env)
+        else:
+            args.append(Tok(nm))
+    return args
